@@ -427,6 +427,44 @@ pub async fn slow_rounds_scenario(delay: Duration, horizon: u64, out: &mut ScOut
     out.c.add("sends_logged", shared.lock().unwrap().sends.len() as u64);
 }
 
+/// A burst of user-requested handshakes queued without yielding, immediately followed by a shutdown request: every
+/// command is served in order (each requested SYN is attempted) and the shutdown completes, however long the queue.
+pub async fn gossip_burst_then_shutdown(burst: usize, slow: bool, out: &mut ScOut) {
+    let what = format!("{burst} gossip() requests queued at once, then shutdown(){}", if slow { " (every send takes 2.5 s)" } else { "" });
+    let shared = Arc::new(Mutex::new(Shared { mode: if slow { 2 } else { 0 }, sends: vec![], t0: Some(Instant::now()), delay: None }));
+    let (_tx, rx) = mpsc::unbounded_channel();
+    let transport = ScriptedTransport { shared: shared.clone(), rx: Mutex::new(Some(rx)) };
+    let handle = match spawn_chitchat(server_config(30_000, addr(30_001)), vec![], &transport).await {
+        Ok(h) => h,
+        Err(e) => {
+            out.findings.push(Finding::new(&["C19"], "server.spawn_failed", format!("{what}: {e:#}")));
+            return;
+        }
+    };
+    tokio::time::sleep(Duration::from_millis(500)).await;
+    let target = addr(30_003);
+    let mut refused = 0usize;
+    for _ in 0..burst {
+        if handle.gossip(target).is_err() {
+            refused += 1;
+        }
+    }
+    out.c.add("gossip_commands", burst as u64);
+    out.c.inc("shutdown_requests");
+    // every queued send may take 2.5 s, plus the rounds that come due in between
+    let patience = Duration::from_secs(60) + DELAY * (3 * burst as u32 + 10);
+    match tokio::time::timeout(patience, handle.shutdown()).await {
+        Ok(Ok(())) => out.c.inc("clean_shutdowns"),
+        Ok(Err(e)) => out.findings.push(Finding::new(&["C19"], "server.shutdown_error", format!("{what}: shutdown returned {e:#}"))),
+        Err(_) => out.findings.push(Finding::new(&["C19"], "server.shutdown_hangs", format!("{what}: the shutdown request did not complete within {patience:?} of virtual time ({refused} of the gossip requests were refused)"))),
+    }
+    let served = shared.lock().unwrap().sends.iter().filter(|s| s.kind == "syn" && s.to == target).count();
+    out.c.add("sends_logged", shared.lock().unwrap().sends.len() as u64);
+    if served + refused < burst && out.findings.is_empty() {
+        out.findings.push(Finding::new(&["C19"], "server.gossip_command_ignored", format!("{what}: only {served} of the {burst} requested SYNs were attempted before the shutdown ({refused} requests were refused)")));
+    }
+}
+
 /// C17 at the caller: the pools the real gossip round hands to the selection function. `nl` peers keep heartbeating
 /// (fed through the shared lock once per virtual second), `nd` peers fall silent after 5 s: they are evaluated dead,
 /// later scheduled for deletion (half the dead-node grace period) and finally forgotten. Before every round the
@@ -823,6 +861,22 @@ pub fn check(args: &Args) -> Outcome {
             ev.distinct.insert(mix3(0x510, delay_ms, horizon));
             for f in out.findings {
                 violations.push((f, json!({"engine": "E10-slow-transport", "delay_ms": delay_ms, "horizon_s": horizon})));
+            }
+        }
+    }
+    // bursts of user commands followed by a shutdown
+    if !args.has("--udp-only") {
+        for (burst, slow) in [(1usize, false), (31, false), (32, false), (33, false), (200, false), (5_000, false), (40, true)] {
+            let rt = paused_rt();
+            let mut out = ScOut { findings: vec![], c: Counters::default() };
+            if let Err(p) = catch(|| rt.block_on(gossip_burst_then_shutdown(burst, slow, &mut out))) {
+                ev.inconclusive.push(format!("gossip-burst scenario: harness panic {p}"));
+            }
+            ev.evaluations += 1;
+            ev.counters.merge(&out.c);
+            ev.distinct.insert(mix3(0xB0257, burst as u64, slow as u64));
+            for f in out.findings {
+                violations.push((f, json!({"engine": "E10-gossip-burst", "burst": burst, "slow_sends": slow})));
             }
         }
     }
